@@ -15,6 +15,10 @@ type MinimumMeasurement struct {
 func (m *MinimumMeasurement) Add(sample float64) (float64, bool) {
 	m.mu.Lock()
 	defer m.mu.Unlock()
+	return m.add(sample)
+}
+
+func (m *MinimumMeasurement) add(sample float64) (float64, bool) {
 	oldValue := float64(m.value)
 	if oldValue == 0.0 || sample < oldValue {
 		m.value = sample
@@ -38,10 +42,9 @@ func (m *MinimumMeasurement) Reset() {
 
 // Update will update the value given an operation function
 func (m *MinimumMeasurement) Update(operation func(value float64) float64) {
-	m.mu.RLock()
-	current := m.value
-	m.mu.RUnlock()
-	m.Add(operation(current))
+	m.mu.Lock()
+	defer m.mu.Unlock()
+	m.add(operation(m.value))
 }
 
 func (m *MinimumMeasurement) String() string {
